@@ -49,6 +49,7 @@ class Spec:
         self.extra_cases = None         # callable(rng, tier) -> [(grammar, input)] appended to the random stream
         self.deep = None                # callable(tier) -> [descriptor]; impl-only runs (too deep / long for the model's fuel)
         self.kind_cases = None          # callable(rng, tier) -> [(grammar, input, [ikinds])]: extra cases on specific input kinds
+        self.universe = None            # dict(leaves, unary, binary): exhaustive small universe U(k), see universe_cases
 
     @staticmethod
     def inp_for_kind(ik, inp):
@@ -99,12 +100,49 @@ class Spec:
                         for md in self.modes:
                             yield cid, sx([cid, ik, ek, md, g, self.inp_for_kind(ik, inp)]), dict(g=g, inp=inp, ikind=ik, ekind=ek, mode=md, group=group)
                             cid += 1
+        for g, inp in (universe_cases(self.universe, tier) if self.universe else []):
+            group += 1
+            for md in self.modes:
+                yield cid, sx([cid, self.ikinds[0], self.ekinds[0], md, g, self.inp_for_kind(self.ikinds[0], inp)]), dict(g=g, inp=inp, ikind=self.ikinds[0], ekind=self.ekinds[0], mode=md, group=group, universe=True)
+                cid += 1
         for g, inp, kinds in (self.kind_cases(rng, tier) if self.kind_cases else []):
             group += 1
             for ik in kinds:
                 for md in self.modes:
                     yield cid, sx([cid, ik, self.ekinds[0], md, g, self.inp_for_kind(ik, inp)]), dict(g=g, inp=inp, ikind=ik, ekind=self.ekinds[0], mode=md, group=group)
                     cid += 1
+
+# ----------------------------------------------------------------------------------------------
+# exhaustive small universes: every grammar with at most k combinator nodes over a reduced constructor set, on every
+# input up to length L over {a, b}.  Quick: k = 3, L = 3; thorough: k = 4 for a sample of the binary forms, L = 4.
+# ----------------------------------------------------------------------------------------------
+U_LEAVES = ["Any", "End", "Empty", ["Just", [A]], ["Just", [A, B]], ["OneOf", [A, B]], ["NoneOf", [A]], ["Custom", [A], 7]]
+U_UNARY = [lambda x: ["Map", "FDup", x], lambda x: ["Ignored", x], lambda x: ["OrNot", x], lambda x: ["Not", x], lambda x: ["Rewind", x],
+           lambda x: ["Filter", ["PTokIn", [A]], x], lambda x: ["TryMap", ["PTokIn", [A]], "FId", 3, x],
+           lambda x: ["RepUnit", ["IRep", x, 0, "inf"]], lambda x: ["Collect", "CVec", ["IRep", x, 0, "inf"]],
+           lambda x: ["Collect", "CCount", ["IRep", x, 1, 2]], lambda x: ["ToSpan", x], lambda x: ["CollectExactly", 2, ["IRep", x, 0, "inf"]]]
+U_BINARY = [lambda x, y: ["Then", x, y], lambda x, y: ["Or", x, y], lambda x, y: ["AndIs", x, y], lambda x, y: ["IgnoreThen", x, y],
+            lambda x, y: ["ThenIgnore", x, y], lambda x, y: ["Collect", "CVec", ["ISep", x, y, 0, "inf", 0, 1]],
+            lambda x, y: ["Foldl", x, ["IRep", y, 0, "inf"], 4]]
+def U(leaves=(), unary=(), binary=()):
+    return dict(leaves=U_LEAVES + list(leaves), unary=U_UNARY + list(unary), binary=U_BINARY + list(binary))
+_UCACHE = {}
+def universe_cases(u, tier):
+    key = (id(u), tier)
+    if key in _UCACHE: return _UCACHE[key]
+    k = 3
+    gs = []
+    for size in range(1, k + 1):
+        gs.extend(enum_grammars(size, u["leaves"], u["unary"], u["binary"]))
+    if tier != "quick":        # size 4: unary over size 3
+        for un in u["unary"]:
+            for x in enum_grammars(3, u["leaves"], u["unary"], u["binary"]):
+                gs.append(un(x))
+    if u.get("post"): gs = [u["post"](g) for g in gs]
+    inputs = list(all_strings([A, B], 3 if tier == "quick" else 4))
+    out = [(g, inp) for g in gs for inp in inputs]
+    _UCACHE[key] = out
+    return out
 
 # ----------------------------------------------------------------------------------------------
 # extra oracles (on the implementation result alone)
@@ -430,6 +468,31 @@ SPECS["C12"].deep = c12_deep
 SPECS["C20"].deep = c20_deep
 SPECS["C16"].extra_cases = c16_pairs
 SPECS["C16"].cross = c16_cross
+SPECS["C01"].universe = U()
+SPECS["C02"].universe = U(unary=[lambda x: ["Collect", "CVec", ["IEnum", ["IRep", x, 0, 3]]], lambda x: ["Foldr", ["IRep", x, 0, "inf"], "Empty", 5]],
+                          binary=[lambda x, y: ["Collect", "CVec", ["ISep", x, y, 1, 2, 1, 0]], lambda x, y: ["RepUnit", ["ISep", x, y, 0, "inf", 1, 1]]])
+SPECS["C03"].universe = U()
+SPECS["C04"].universe = U(unary=[lambda x: ["ToSlice", x], lambda x: ["To", 1, x], lambda x: ["ExtWrap", x], lambda x: ["Validate", "PTrue", 2, x]],
+                          binary=[lambda x, y: ["DelimitedBy", x, y, y], lambda x, y: ["RecoverVia", x, y]])
+SPECS["C05"].universe = U(unary=[lambda x: ["Validate", "PTrue", 2, x]], binary=[lambda x, y: ["RecoverVia", x, y]])
+SPECS["C06"].universe = dict(leaves=U_LEAVES, unary=[f for f in U_UNARY if f("Any")[0] != "Not"], binary=U_BINARY)
+SPECS["C08"].universe = U(unary=[lambda x: ["Validate", "PTrue", 2, x]],
+                          binary=[lambda x, y: ["RecoverVia", x, y], lambda x, y: ["RecoverSkipRetry", x, "Any", y], lambda x, y: ["RecoverSkipUntil", x, "Any", y, 9]])
+SPECS["C17"].universe = U(unary=[lambda x: ["Labelled", 1, 1, x], lambda x: ["Labelled", 2, 0, x], lambda x: ["MapErr", 3, x]])
+SPECS["C18"].universe = U(leaves=[["Skip", 1]], unary=[lambda x: ["MapWith", "MWState", x], lambda x: ["MapWith", "MWAll", x]])
+SPECS["C20"].universe = U(unary=[lambda x: ["Labelled", 1, 0, x], lambda x: ["MapErr", 3, x], lambda x: ["ExtWrap", x]], binary=[lambda x, y: ["RecoverVia", x, y]])
+def renumber_memo(g):
+    """every memoized() call is a distinct parser: give each Memo node its own id"""
+    c = [0]
+    def walk(x):
+        if isinstance(x, list):
+            y = [walk(a) for a in x]
+            if y and y[0] == "Memo":
+                c[0] += 1; y[1] = c[0]
+            return y
+        return x
+    return walk(g)
+SPECS["C11"].universe = dict(U(unary=[lambda x: ["Memo", 1, x]]), post=renumber_memo)
 SPECS["C10"].kind_cases = c10_graphemes
 SPECS["C10"].all_kinds = True
 SPECS["C10"].extra_cases = c10_long
